@@ -52,8 +52,8 @@ def verdicts(obj, hint, conf, draw: int) -> dict:
     run('typehint', lambda: TypeHint(hint).is_bearable(obj, conf=conf), ())
     fp, fr = decorated(hint, conf)
     if fp is not None:
-        run('param', lambda: fp(obj) and None, BeartypeCallHintViolation)
-        run('return', lambda: fr(obj) and None, BeartypeCallHintViolation)
+        run('param', lambda: fp(obj), BeartypeCallHintViolation)
+        run('return', lambda: fr(obj), BeartypeCallHintViolation)
     return out
 
 
@@ -72,7 +72,12 @@ def decorated(hint, conf):
 
             def fr(x) -> hint:
                 return x
-            _DECOR[key] = (beartype(conf=conf)(fp), (lambda g: (lambda x: g(x) and None))(beartype(conf=conf)(fr)))
+            gp, gr = beartype(conf=conf)(fp), beartype(conf=conf)(fr)
+
+            def call_return(x, g=gr):
+                g(x)
+                return None
+            _DECOR[key] = (gp, call_return)
         except Exception:
             _DECOR[key] = (None, None)
     return _DECOR[key]
